@@ -3,12 +3,14 @@
    trips and the round trip of every scalar constant kind (int, uint, char, float as its 64
    bits incl. -0 and NaN payloads, bool, undefined) and of strings and bytes of any content,
    each followed by arbitrary further bytes (so they compose inside containers), and of every
-   value built from those by arrays and maps nested to any depth (C04_container_rt_partial).
+   value built from those by arrays and maps nested to any depth (C04_container_rt_partial), and of
+   compiled functions - parameter and local counts, instructions, variadic flag, source map -
+   (C04_cfunc_rt_partial).
    Not yet proved (kept as a definition, decided on every run by cross decoding model <->
-   implementation and whole-program round trips): sync maps, function objects, compiled functions, the
+   implementation and whole-program round trips): sync maps, function objects, compiled functions nested in containers, the
    Bytecode container with its file set. *)
 From Coq Require Import List ZArith Bool Lia.
-From Ugo Require Import Base.Res Codec.Varint Codec.VarintProofs Codec.Obj Codec.ObjProofs Codec.ObjArrayProofs Codec.ObjMapProofs.
+From Ugo Require Import Base.Res Codec.Varint Codec.VarintProofs Codec.Obj Codec.ObjProofs Codec.ObjArrayProofs Codec.ObjMapProofs Codec.ObjCFuncProofs.
 Import ListNotations.
 Local Open Scope Z_scope.
 
@@ -81,6 +83,19 @@ Theorem C04_container_rt_partial :
   forall f rest, (n <= f)%nat -> decode_object (S f) (encode v ++ rest) = Ok (v, rest).
 Proof. exact plainm_rt. Qed.
 Print Assumptions C04_container_rt_partial.
+
+(* a compiled function: every field written by the encoder is read back *)
+Theorem C04_cfunc_rt_partial :
+  forall f fn rest, wf_cfunc fn -> zlen (enc_cfunc_body enc_bytes fn) < 2 ^ 62 ->
+  decode_object (S (S f)) (encode (CCompiled fn) ++ rest) = Ok (CCompiled fn, rest).
+Proof. exact cfunc_rt. Qed.
+Print Assumptions C04_cfunc_rt_partial.
+
+Example C04_cfunc_example :
+  let fn := {| cf_params := 2; cf_locals := 5; cf_insts := Some [1; 0; 3; 42]; cf_variadic := true; cf_srcmap := Some [(0, 17); (3, 25)] |} in
+  decode (encode (CCompiled fn) ++ [9]) = Ok (CCompiled fn, [9]) /\
+  decode (encode (CCompiled empty_cfunc)) = Ok (CCompiled empty_cfunc, []).
+Proof. vm_compute. split; reflexivity. Qed.
 
 Example C04_container_example :
   let v := CArr [CInt (-5); CMap [([107], CArr [CStr [104; 105]; CArr []; CFloat 9223372036854775808]); ([], CMap [])]; CBytes []] in
